@@ -11,7 +11,7 @@ ORD = V.RULES + ["Copeland"]
 
 class C11(Prop):
     layouts = True
-    translators = ['scoring', 'copeland', 'stv', 'elicitvoting', 'm2q']   # models regenerated from deterministic_scoring.py / utils.py / deterministic_tournament.py on every run
+    translators = ['scoring', 'copeland', 'stv', 'elicitvoting', 'm2q', 'elicitor', 'elicitclasses']   # models regenerated from deterministic_scoring.py / utils.py / deterministic_tournament.py on every run
     pid = "C11"
     sources = ["socialchoicekit/deterministic_scoring.py", "socialchoicekit/deterministic_tournament.py", "socialchoicekit/deterministic_multiround.py"]
     groups = {
